@@ -7,7 +7,8 @@ in : {"gens":[{"wrapped":bool,"code":[instr…]}…], "script":[step…], "keeps
      inp  : ["send",v|null] ["throw",e] ["close"]
      step : ["enter",a] ["exit"] ["resume",i,inp]
 out: {"steps":[{"out":null|{"y":v}|{"r":v}|{"x":exc},"before":a|null,"after":a|null}…],
-      "obs":[{"gen","tag","seen","expected"}…]}   (obs oldest first)
+      "obs":[{"gen","tag","seen","expected"}…],   (oldest first; tag 0 = start of the body: expected = resumer's action)
+      "nested":[{"by","gen","before","after"}…]}
 "keeps" overrides `Gen.keepsReturn` (used for the `wrapFixed` comparison only). -/
 open Lean Gen
 
@@ -81,7 +82,7 @@ def outJ : Option Out → Json
   | some (.returned v) => Json.mkObj [("r", valJ v)]
   | some (.raised e) => Json.mkObj [("x", excJ e)]
 
-def actJ : Option ActionId → Json
+def actJ : Option Nat → Json
   | none => Json.null
   | some a => toJson a
 
@@ -97,7 +98,9 @@ def runCase (j : Json) : Except String Json := do
   let steps := recs.map fun r => Json.mkObj [("out", outJ r.out), ("before", actJ r.before), ("after", actJ r.after)]
   let obs := w.obs.reverse.map fun o =>
     Json.mkObj [("gen", toJson o.gen), ("tag", toJson o.tag), ("seen", actJ o.seen), ("expected", actJ o.expected)]
-  pure (Json.mkObj [("steps", Json.arr steps.toArray), ("obs", Json.arr obs.toArray)])
+  let nested := w.nrecs.reverse.map fun r =>
+    Json.mkObj [("by", toJson r.by_), ("gen", toJson r.gen), ("before", actJ r.before), ("after", actJ r.after)]
+  pure (Json.mkObj [("steps", Json.arr steps.toArray), ("obs", Json.arr obs.toArray), ("nested", Json.arr nested.toArray)])
 
 partial def loop (h : IO.FS.Stream) : IO Unit := do
   let line ← h.getLine
